@@ -272,6 +272,12 @@ func (e *IntExp) String() string {
 }
 
 func (e *FloatExp) format(w stringWriter, _ string) {
+	if e.Value == 0 {
+		// Negative zero would print as "-0", which re-parses as the
+		// integer 0 and then prints differently.
+		mustWriteByte(w, '0')
+		return
+	}
 	var buf [68]byte
 	mustWrite(w, strconv.AppendFloat(buf[:0], e.Value, 'g', -1, 64))
 }
